@@ -116,6 +116,10 @@ package zoekt
 //@ func zoekt.Streamer.StreamSearch(ctx, q, opts, sender)
 //@   requires opts != nil
 //@   assigns sentStats, sentFiles
+// List accepts nil options; with a nil error it hands back a list (assumed).
+//@ func zoekt.Streamer.List(ctx, q, opts)
+//@   ensures result1 == nil ==> result0 != nil
+//@   assigns nothing
 
 // Plain field-by-field copy into a fresh struct (nil for nil).
 //@ func zoekt.SearchOptionsFromProto
